@@ -4,7 +4,7 @@
    executable monitor c01_check — the same statement in boolean form, which the correspondence check
    evaluates on every state OBSERVED ON THE IMPLEMENTATION — is silent on every model state. *)
 From IT Require Import Props.
-From IT.proofs Require Import Reach Reach2.
+From IT.proofs Require Import Reach Reach2 MonitorSound.
 
 Theorem C01_links_wellformed : forall ops, valid_hist false init ops -> LinksOK (ar (reach ops)).
 Proof. exact reach_links_ok. Qed.
@@ -14,6 +14,12 @@ Proof. exact reach_c01_silent. Qed.
 Theorem C01_represents_forest : forall ops, valid_hist false init ops -> exists F, Repr (ar (reach ops)) F.
 Proof. exact reach_repr. Qed.
 
+(* soundness of the monitor, for ARBITRARY arenas (no invariant assumed): whenever c01_check is silent
+   on a state — in particular a state observed on the implementation — LinksOK holds of that state *)
+Theorem C01_monitor_sound : forall a, c01_check a = [] -> LinksOK a.
+Proof. exact c01_check_sound. Qed.
+
 Print Assumptions C01_links_wellformed.
+Print Assumptions C01_monitor_sound.
 Print Assumptions C01_monitor_silent.
 Print Assumptions C01_represents_forest.
